@@ -14,6 +14,7 @@ import (
 	"strconv"
 	"strings"
 	"sync"
+	"syscall"
 	"time"
 )
 
@@ -54,12 +55,20 @@ func init() {
 		c := newCtx(args[1], args[2], seed)
 		c.child = true
 		startDeadlockWatch()
+		// a workload that spins instead of blocking is ended by the kernel after a CPU budget far above what the unchanged tree
+		// needs (quick shards use seconds to a few minutes of CPU); the parent reads the consumed CPU from the exit status
+		lim := uint64(shardCPULimitQuick)
+		if args[2] != "quick" {
+			lim = shardCPULimitThorough
+		}
+		syscall.Setrlimit(syscall.RLIMIT_CPU, &syscall.Rlimit{Cur: lim, Max: lim + 5})
 		fn(c, sh, n)
 		c.dumpState()
 	}
 }
 
 const exitChildDeadlock = 97
+const shardCPULimitQuick, shardCPULimitThorough = 600, 6 * 3600 // seconds of CPU per shard child
 
 // startDeadlockWatch: a logical hang verdict for workload children. When the process has burnt (next to) no CPU for 10 s
 // and every goroutine other than the watcher is parked on a channel, select or lock, nothing can ever wake it: the child
@@ -173,6 +182,17 @@ func (c *Ctx) mergeShard(name string, s, n int, res childResult) {
 				}
 			}
 			c.Violate("", fmt.Sprintf("child-deadlock shard=%s %d/%d: the workload stopped for good - no CPU for 10 s with every goroutine blocked on a channel or lock - during [%s]", name, s, n, last),
+				map[string]any{"shard": name, "index": s, "of": n, "last_case": last, "log_tail": tail})
+			return
+		}
+		if lim := map[bool]time.Duration{true: shardCPULimitQuick, false: shardCPULimitThorough}[c.Tier == "quick"] * time.Second; !res.TimedOut && res.Signaled && res.UserCPU+res.SysCPU >= lim-2*time.Second {
+			last := ""
+			for _, l := range strings.Split(res.Out, "\n") {
+				if strings.HasPrefix(l, "SHAPE ") || strings.HasPrefix(l, "CASE ") {
+					last = l
+				}
+			}
+			c.Violate("", fmt.Sprintf("child-spin shard=%s %d/%d: the workload consumed %v of CPU without finishing (the unchanged tree needs a small fraction of that) and was ended by the CPU limit, during [%s]", name, s, n, lim, last),
 				map[string]any{"shard": name, "index": s, "of": n, "last_case": last, "log_tail": tail})
 			return
 		}
